@@ -26,7 +26,7 @@ class TimePattern(i_lib.TimePattern):
             hours, minutes, *_ = the_match.groups()
             if TimePattern.patterns_valid(hours, minutes):
                 return TimePattern(hours, minutes)
-        return TimePattern(None, None)
+        return None
 
     @staticmethod
     def patterns_valid(hours, minutes):
@@ -46,7 +46,7 @@ class TimePattern(i_lib.TimePattern):
         if not hours.isdecimal():
             return False
         int_hours = int(hours)
-        return 0 <= int_hours < 25
+        return 0 <= int_hours < 24
 
     @staticmethod
     def minutes_valid(minutes):
